@@ -447,12 +447,16 @@ PROPS["C02"] = {
                 {"bin": "h_codec", "args": ["roundtrip"], "oracle_prefixes": ["sd decode", "sd values"]}],
     "rule": ("golden corpus corpus/C02/*.golden (150 streams of both roots recorded at the pinned commit; the current Go reader and "
              "the Lean specification decoder must both return the recorded records) + the generated histories of C01 decoded by the "
-             "independent Lean decoder, which also counts direct encodings of values already in their dictionary (dv must be 0); "
+             "independent Lean decoder, which also counts the specification violations that do not stop decoding - direct encodings "
+             "of values already in their dictionary and values-only multimap encodings of more than 62 pairs (dv must be 0); "
              "non-trivial = stream with >= 2 records; distinct by stream hash"),
     "trusted_base": CODEC_TB + ["the Java peer is represented by the Lean specification decoder, it is not run"],
     "assumptions": [],
     "level_text": ("Theorems: fixed_header_layout, frame_layout (model framing = specification parser), dict_ref_always, "
-                   "dict_admission, plus the value-format theorems of C20. The statement 'an independent decoder decodes the bytes "
+                   "dict_admission, values_only_over_62_is_violation (a values-only multimap header against a previous value of "
+                   "more than 62 pairs raises the decoder's violation counter, at most 62 does not; the counter never decreases), "
+                   "specenc_values_only_within_62 / specenc_stream_counts_nothing (the proved encoder never does that), "
+                   "plus the value-format theorems of C20. The statement 'an independent decoder decodes the bytes "
                    "to the records written' is decided per generated history by running Stef.Spec.decodeStream (core Lean, shares "
                    "no code with the library) on the bytes the real writer produced; `se reencode` additionally regenerates each frame "
                    "byte-exactly with the model encoder (Stef/SpecEnc.lean), whose round trip against that decoder is proved "
